@@ -209,7 +209,7 @@ temporary_stack& foonathan::memory::get_temporary_stack(std::size_t initial_size
 
 namespace
 {
-    thread_local alignas(temporary_stack) char temporary_stack_storage[sizeof(temporary_stack)];
+    alignas(temporary_stack) thread_local char temporary_stack_storage[sizeof(temporary_stack)];
     thread_local bool is_created = false;
 
     temporary_stack& get() noexcept
